@@ -116,7 +116,8 @@ def replay_histories(batch):
                     g = op['gen']
                     if g and g not in shared:
                         shared[g] = make_gen(g)
-                    objs[op['obj']] = nd.Derivative(fun, step=shared.get(g), method=op['m'], n=op['n'], order=op['o'], full_output=True)
+                    kw = dict(step_ratio=4.0, num_steps=3) if op.get('kw') else {}      # options next to a generator instance: not the generator's business
+                    objs[op['obj']] = nd.Derivative(fun, step=shared.get(g), method=op['m'], n=op['n'], order=op['o'], full_output=True, **kw)
                 elif kind == 'setn':
                     objs[op['obj']].n = op['v']
                 elif kind == 'setorder':
